@@ -134,17 +134,17 @@ def main(tier, seed):
     from framework import Runner, Query
     R = Runner('C17', tier, seed); R.setup()
     quick = tier == 'quick'
-    R.assumptions += ['new names: every string of 0..%d arbitrary Unicode chars (plus boundary numerals for intervals); pushed component lists of 0..2 atoms with arbitrary names' % (2 if quick else 3),
+    R.assumptions += ['new names: every string of 0..%d arbitrary Unicode chars (plus boundary numerals for intervals); pushed component lists of 0..2 atoms with arbitrary names' % (3 if quick else 4),
                       'std str::parse::<usize> is a Python model, validated against the native build on every path']
     shapes = all_shapes()
     plist = []
     for sh in shapes:
-        for L in range(0, (3 if quick else 4)):
+        for L in range(0, (4 if quick else 5)):
             if sh[0] not in NAMED + ('Interval',) and L > 1: continue
             plist.append(dict(shape=sh, len=L))
     for s in ('18446744073709551615', '18446744073709551616', '+0', '+', '0007', '-1', '+18446744073709551615', '99999999999999999999'):
         plist.append(dict(shape=('Interval', ('Interval', 5)), len=len(s), fixed=[ord(c) for c in s]))
-    R.run_query(Query('rename', 'c17', 'path_rename', plist, '%d shapes (all 30 constructors) x names of 0..%d arbitrary chars + 8 boundary numerals' % (len(shapes), 2 if quick else 3)), confirm, key_of)
+    R.run_query(Query('rename', 'c17', 'path_rename', plist, '%d shapes (all 30 constructors) x names of 0..%d arbitrary chars + 8 boundary numerals' % (len(shapes), 3 if quick else 4)), confirm, key_of)
     plist = [dict(shape=sh, n=n) for sh in shapes for n in range(0, 3)]
     R.run_query(Query('push', 'c17', 'path_push', plist, '%d shapes x 0..2 pushed atoms with arbitrary names' % len(shapes)), confirm, key_of)
     return R.finish(rule='one state = one path of a mutator on one shape with symbolic arguments', trusted=['rustc MIR', 'mirsym + std models (validated per path)', 'z3'])
